@@ -22,8 +22,8 @@ Persisted(x, c) == x.cell1[c] + x.cell2[c]
 
 (* at every instant persisted + pending never exceeds the increments begun *)
 UpperBoundAt(x) == \A c \in DOMAIN x.st : Persisted(x, c) + EX(x.st[c]) <= x.begun[c]
-(* once all calls have returned: equality, and no hold left behind *)
-QuiescentAt(x) == x.final => \A c \in DOMAIN x.st : Persisted(x, c) + EX(x.st[c]) = x.begun[c] /\ R(x.st[c]) = 0
+(* once all calls have returned: equality (runs that reach the saturation limit excepted), and no hold left behind *)
+QuiescentAt(x) == (x.final /\ ~x.sat) => \A c \in DOMAIN x.st : Persisted(x, c) + EX(x.st[c]) = x.begun[c] /\ R(x.st[c]) = 0
 (* once a file is open and all calls have returned nothing remains unpersisted *)
 FlushedAt(x) == (x.final /\ x.fileopen) => \A c \in DOMAIN x.st : EX(x.st[c]) = 0
 (* a pointer believed valid points into an open mapping *)
